@@ -1,4 +1,118 @@
 package c17
 
-// pinned regression witnesses (materialised cases as JSON): inputs that failed on the pinned tree.
-var pinned = []string{}
+import (
+	"math"
+
+	"verif/harness/taref"
+)
+
+// pinned regression witnesses: sequences that failed on the pinned tree and were fixed in /repo by the C17-01 … C17-16 patches
+// (see /verif/inbox/applied/C17-*.md). They run first in every tier.
+
+func nv(t taref.ElemType, buf, out int, a ...Arg) Op {
+	return Op{K: "newView", V: buf, T: int(t), A: a, Out: out, OutB: 90 + out}
+}
+func n(f float64) Arg           { return num(f) }
+func detachEff(b int) []Eff     { return []Eff{{K: "detach", B: b}} }
+func script0(id, n int) BufSpec { return BufSpec{ID: id, N: n} }
+func gobuf(id, n, pre int, cap3 bool) BufSpec {
+	init := make([]byte, n)
+	for i := range init {
+		init[i] = byte(0xb1 + 17*i)
+	}
+	return BufSpec{ID: id, N: n, Go: true, Pre: pre, Post: 9, Cap3: cap3, Init: init, Salt: 3}
+}
+func tb(v bool) Arg { return Arg{K: "b", B: v} }
+
+var pinned = []Case{
+	{Tag: "C17-01a set(array-like) element whose valueOf detaches: write into the released slab, later conversions skipped",
+		Bufs: []BufSpec{gobuf(0, 16, 8, false)},
+		Ops: []Op{nv(taref.Uint8, 0, 0),
+			{K: "set", V: 0, A: []Arg{{K: "arr", L: []Arg{n(1), tricky(1, detachEff(0), n(0x77)), n(3), tricky(2, nil, n(4))}}, n(2)}}}},
+	{Tag: "C17-01b map: species result detached by the callback / by the mapped value's valueOf",
+		Bufs: []BufSpec{script0(0, 8), script0(1, 8), script0(2, 8)},
+		Ops: []Op{nv(taref.Uint8, 0, 0), nv(taref.Uint8, 1, 1), nv(taref.Uint8, 2, 2),
+			{K: "setCtor", V: 0, Sp: &Species{Kind: "species-fn", ID: 1, Res: "existing", View: 1}},
+			{K: "map", V: 0, A: []Arg{{K: "cb", I: 2, At: 1, E: detachEff(1), L: []Arg{n(5)}}}, Out: 5, OutB: 95},
+			{K: "setCtor", V: 0, Sp: &Species{Kind: "species-fn", ID: 3, Res: "existing", View: 2}},
+			{K: "map", V: 0, A: []Arg{{K: "cb", I: 4, At: -1, L: []Arg{n(7), tricky(5, detachEff(2), n(9)), n(1)}}}, Out: 6, OutB: 96}}},
+	{Tag: "C17-01c %TypedArray%.of / from through a constructor returning a reachable view that the items detach",
+		Bufs: []BufSpec{script0(0, 8), gobuf(1, 8, 11, true)},
+		Ops: []Op{nv(taref.Int16, 0, 0, n(2), n(3)), nv(taref.Uint8, 1, 1, n(1), n(6)),
+			{K: "ofC", V: 0, N: 1, A: []Arg{n(1), tricky(2, detachEff(0), n(2)), n(3)}},
+			{K: "fromC", V: 1, N: 3, A: []Arg{{K: "arr", L: []Arg{n(9), tricky(4, detachEff(1), n(8)), n(7)}}}}}},
+	{Tag: "C17-02 copyWithin: count must be min(final-from, len-to); no TypeError when count = 0",
+		Bufs: []BufSpec{gobuf(0, 7, 17, false), script0(1, 8)},
+		Ops: []Op{nv(taref.Int8, 0, 0, n(1), n(2)), {K: "copyWithin", V: 0, A: []Arg{n(2)}},
+			nv(taref.Uint16, 0, 1, n(0), n(2)), {K: "copyWithin", V: 1, A: []Arg{n(1), n(0)}},
+			nv(taref.BigUint64, 1, 2), {K: "copyWithin", V: 2, A: []Arg{tricky(1, detachEff(1), tb(true))}}}},
+	{Tag: "C17-03 Export()/ExportTo(&[]byte) of views over a detached buffer; Export() of an empty wide view over a short buffer",
+		Bufs: []BufSpec{script0(0, 16), gobuf(1, 4, 15, false), gobuf(2, 5, 8, true)},
+		Ops: []Op{nv(taref.Uint16, 0, 0, n(2), n(4)), nv(taref.Uint8, 0, 1, n(0), n(4)), nv(taref.BigInt64, 1, 2, n(0), n(0)),
+			{K: "dvNew", V: 2, Out: 0}, {K: "goExport", V: 2, Raw: []byte{1}},
+			{K: "detach", V: 0}, {K: "detach", V: 2},
+			{K: "goExport", V: 0, Raw: []byte{1}}, {K: "goExport", V: 1, Raw: []byte{1}}, {K: "goExportTo", V: 0, Raw: []byte{1}}, {K: "goExportToDV", V: 0, Raw: []byte{1}}}},
+	{Tag: "C17-04 defineProperty on an element with a descriptor without [[Value]]",
+		Bufs: []BufSpec{script0(0, 16)},
+		Ops: []Op{nv(taref.Uint8, 0, 0, n(1), n(2)), nv(taref.BigUint64, 0, 1, n(8), n(1)),
+			{K: "define", V: 0, X: "0", Fl: "wec"}, {K: "define", V: 1, X: "0", Fl: "e"}, {K: "define", V: 0, X: "1", Fl: ""}}},
+	{Tag: "C17-05 BigInt64Array fill / includes / indexOf with negative BigInts",
+		Bufs: []BufSpec{script0(0, 32)},
+		Ops: []Op{nv(taref.BigInt64, 0, 0, n(0), n(3)), {K: "fill", V: 0, A: []Arg{big_("-170")}}, {K: "includes", V: 0, A: []Arg{big_("-170")}},
+			{K: "fill", V: 0, A: []Arg{big_("-18446744073709551617"), n(1)}}, {K: "indexOf", V: 0, A: []Arg{big_("-1")}}, {K: "lastIndexOf", V: 0, A: []Arg{big_("-170")}}}},
+	{Tag: "C17-06 ArrayBuffer.prototype.slice: detached receiver, validations with newLen = 0",
+		Bufs: []BufSpec{script0(0, 8), script0(1, 8), script0(2, 8), script0(3, 8)},
+		Ops: []Op{{K: "detach", V: 0}, {K: "bufSlice", V: 0, A: []Arg{n(0), n(1)}, OutB: 10},
+			{K: "bufSlice", V: 0, A: []Arg{tricky(1, []Eff{{K: "throw", Err: "URIError"}}, n(0))}, OutB: 11},
+			{K: "setBufCtor", V: 1, Sp: &Species{Kind: "species-fn", ID: 2, Res: "samebuf"}}, {K: "bufSlice", V: 1, A: []Arg{n(3), n(3)}, OutB: 12},
+			{K: "bufSlice", V: 2, A: []Arg{tricky(3, detachEff(2), n(8))}, OutB: 13},
+			{K: "setBufCtor", V: 3, Sp: &Species{Kind: "species-fn", ID: 4, Res: "detachedbuf"}}, {K: "bufSlice", V: 3, A: []Arg{n(2), n(2)}, OutB: 14}}},
+	{Tag: "C17-07 fill converts the value before start and end",
+		Bufs: []BufSpec{script0(0, 16)},
+		Ops: []Op{nv(taref.Uint8, 0, 0, n(2), n(4)), {K: "fill", V: 0, A: []Arg{tricky(1, nil, n(1)), tricky(2, nil, n(0)), tricky(3, nil, n(4))}},
+			nv(taref.BigInt64, 0, 1, n(8), n(1)), {K: "fill", V: 1, A: []Arg{n(7), tricky(4, detachEff(0), n(0))}}}},
+	{Tag: "C17-08 [[ContentType]] checks (constructor, set, species)",
+		Bufs: []BufSpec{script0(0, 32)},
+		Ops: []Op{nv(taref.Float64, 0, 0, n(8), n(0)), {K: "newTA", T: int(taref.BigInt64), A: []Arg{viewRef(0)}, Out: 5, OutB: 95},
+			nv(taref.BigInt64, 0, 1, n(8), n(2)), nv(taref.Float32, 0, 2, n(24), n(0)), {K: "set", V: 1, A: []Arg{viewRef(2)}},
+			nv(taref.Uint8, 0, 3, n(0), n(1)), nv(taref.BigInt64, 0, 4), {K: "set", V: 3, A: []Arg{viewRef(4)}},
+			{K: "setCtor", V: 1, Sp: &Species{Kind: "species-fn", ID: 1, Res: "new", T: int(taref.Float64), Delta: 2}},
+			{K: "subarray", V: 1, Out: 6, OutB: 96}, {K: "slice", V: 1, A: []Arg{n(1), n(1)}, Out: 7, OutB: 97},
+			{K: "filter", V: 1, A: []Arg{{K: "cb", I: 2, At: -1, L: []Arg{tb(false)}}}, Out: 8, OutB: 98}}},
+	{Tag: "C17-09 toLocaleString on an empty array over a detached buffer",
+		Bufs: []BufSpec{script0(0, 0), gobuf(1, 8, 8, false)},
+		Ops:  []Op{nv(taref.Uint8, 0, 0), nv(taref.Int16, 1, 1, n(8), n(0)), {K: "detach", V: 0}, {K: "detach", V: 1}, {K: "toLocaleString", V: 0}, {K: "toLocaleString", V: 1}}},
+	{Tag: "C17-10 a failing ToIndex must not run the user's conversion twice",
+		Bufs: []BufSpec{script0(0, 8)},
+		Ops: []Op{nv(taref.Int16, 0, 0, tricky(1, nil, n(-1))), {K: "dvNew", V: 0, A: []Arg{tricky(2, nil, n(-21))}, Out: 0},
+			{K: "dvNew", V: 0, Out: 1}, {K: "dvGet", V: 1, T: int(taref.Uint16), A: []Arg{tricky(3, nil, n(-1))}},
+			{K: "dvSet", V: 1, T: int(taref.Uint8), A: []Arg{tricky(4, nil, n(math.Inf(1))), n(1)}}, {K: "bufNew", A: []Arg{tricky(5, nil, n(-1))}, OutB: 9}}},
+	{Tag: "C17-11 new DataView(buffer, offset, length) whose length conversion detaches the buffer",
+		Bufs: []BufSpec{gobuf(0, 24, 24, false)},
+		Ops:  []Op{{K: "dvNew", V: 0, A: []Arg{n(22), tricky(1, detachEff(0), n(2))}, Out: 0}}},
+	{Tag: "C17-12 own property keys of a typed array over a detached buffer",
+		Bufs: []BufSpec{script0(0, 8)},
+		Ops:  []Op{nv(taref.Uint16, 0, 0, n(2), n(3)), {K: "keys", V: 0}, {K: "detach", V: 0}, {K: "keys", V: 0}}},
+	{Tag: "C17-13 sort with a comparator that writes to the array / throws",
+		Bufs: []BufSpec{script0(0, 16)},
+		Ops: []Op{{K: "fromHex", A: []Arg{str("00112233445566778899aabbccddeeff")}, Out: 0, OutB: 1},
+			{K: "sort", V: 0, A: []Arg{{K: "cmp", I: 1, S: "const0", E: []Eff{{K: "store", V: 0, I: 13, Val: &Arg{K: "n", F: math.Float64bits(2)}}}}}},
+			{K: "sort", V: 0, A: []Arg{{K: "cmp", I: 2, S: "desc", E: []Eff{{K: "store", V: 0, I: 0, Val: &Arg{K: "n", F: math.Float64bits(9)}}}}}}}},
+	{Tag: "C17-14 assignment to non-index canonical numeric keys converts by content type",
+		Bufs: []BufSpec{script0(0, 64)},
+		Ops: []Op{nv(taref.Float64, 0, 0, n(40), n(1)), nv(taref.BigUint64, 0, 1, n(32), n(1)),
+			{K: "put", V: 0, X: "-0", A: []Arg{big_("4294967296")}}, {K: "put", V: 1, X: "-Infinity", A: []Arg{n(5)}},
+			{K: "put", V: 1, X: "1e+21", A: []Arg{tricky(1, nil, str("abc"))}}, {K: "put", V: 1, X: "1.5", A: []Arg{big_("7")}}}},
+	{Tag: "C17-15 filter: elements read after the callback detached the buffer are undefined",
+		Bufs: []BufSpec{script0(0, 64), script0(1, 16)},
+		Ops: []Op{nv(taref.Float32, 0, 0, n(20), n(5)), {K: "filter", V: 0, A: []Arg{{K: "cb", I: 1, At: 1, E: detachEff(0), L: []Arg{tb(true)}}}, Out: 5, OutB: 95},
+			nv(taref.BigInt64, 1, 1), {K: "filter", V: 1, A: []Arg{{K: "cb", I: 2, At: 0, E: detachEff(1), L: []Arg{tb(true)}}}, Out: 6, OutB: 96}}},
+	{Tag: "C17-16 includes / indexOf / lastIndexOf compare values, not raw encodings",
+		Bufs: []BufSpec{script0(0, 16)},
+		Ops: []Op{{K: "newObj", T: int(taref.Float32), A: []Arg{{K: "arr", L: []Arg{n(1), n(math.Copysign(0, -1)), n(0)}}}, Out: 0, OutB: 1},
+			{K: "indexOf", V: 0, A: []Arg{n(math.Copysign(0, -1))}}, {K: "lastIndexOf", V: 0, A: []Arg{n(0)}}, {K: "lastIndexOf", V: 0, A: []Arg{n(7.006492321624085e-46)}},
+			{K: "dvNew", V: 0, Out: 0}, {K: "dvSet", V: 0, T: int(taref.Uint32), A: []Arg{n(4), n(0x7fc00001), tb(true)}}, {K: "dvSet", V: 0, T: int(taref.Uint32), A: []Arg{n(8), n(0xffc12345), tb(true)}},
+			nv(taref.Float32, 0, 2), {K: "includes", V: 2, A: []Arg{n(math.NaN())}}, {K: "indexOf", V: 2, A: []Arg{n(math.NaN())}},
+			{K: "newObj", T: int(taref.BigUint64), A: []Arg{{K: "arr", L: []Arg{big_("18446744073709551615")}}}, Out: 3, OutB: 3},
+			{K: "indexOf", V: 3, A: []Arg{big_("-1")}}, {K: "includes", V: 3, A: []Arg{big_("18446744073709551615")}}}},
+}
